@@ -281,6 +281,8 @@ def _simple(e: ast.expr) -> bool:
         return _simple(e.value)
     if isinstance(e, ast.Subscript):
         return _simple(e.value) and _simple(e.slice)
+    if isinstance(e, ast.Slice):
+        return all(x is None or _simple(x) for x in (e.lower, e.upper, e.step))
     return False
 
 
